@@ -181,6 +181,15 @@ M = {
   ('partial excerpt from previous text', 'sourcer/translator.py', "        excerpt = _extract_excerpt(text, pos, col)\n        raise PartialParseError(nodes, position, excerpt)", "        _e = _finalize_parse_info.__dict__\n        excerpt = _e.get('last') if _e.get('key') == (len(text), pos) else _extract_excerpt(text, pos, col)\n        _e['last'], _e['key'] = excerpt, (len(text), pos)\n        raise PartialParseError(nodes, position, excerpt)"),
   ('install module replaces parent attr of old module', 'sourcer/grammar.py', "    sys.modules[name] = module\n", "    old = sys.modules.get(name)\n    if old is not None and hasattr(old, '_run'):\n        old.__dict__.update({k: v for k, v in module.__dict__.items() if k.startswith('_try_')})\n    sys.modules[name] = module\n"),
  ],
+ 'C20': [
+  ('entry prefix parse_', 'sourcer/expressions/rule.py', "entry_name = f'_parse_{self.name}'", "entry_name = f'parse_{self.name}'"),
+  ('impl prefix try_', 'sourcer/expressions/utils.py', "    return f'_try_{name}'", "    return f'try_{name}'"),
+  ('unnumbered temporary in Str', 'sourcer/expressions/str.py', "        end = out.var('end', POS + len(self.value))", "        end = Code('endpos')\n        out += end << (POS + len(self.value))"),
+  ('runtime calls sorted', 'sourcer/translator.py', "    for node in visit(nodes):\n        pos_info = node._metadata.position_info", "    for node in sorted(visit(nodes), key=id):\n        pos_info = node._metadata.position_info"),
+  ('helper prefix without underscore', 'sourcer/expressions/base.py', "        name = f'_parse_function_{self.program_id}'", "        name = f'parse_function_{self.program_id}'"),
+  ('error func prefix', 'sourcer/expressions/base.py', "        return Code(f'_raise_error{self.program_id}')", "        return Code(f'raise_error{self.program_id}')"),
+  ('ctx param named ctx', 'sourcer/expressions/rule.py', "        extra_params = ['_ctx'] if flags.uses_context else []\n        params = extra_params + [str(TEXT), str(POS)] + (self.params or [])\n        impl_name", "        extra_params = ['_ctx'] if flags.uses_context else []\n        params = extra_params + [str(TEXT), str(POS)] + (self.params or [])\n        if 'memo' in (self.params or []):\n            params = params[:-len(self.params)] + ['_memo' if p == 'memo' else p for p in self.params]\n        impl_name"),
+ ],
  'C03': [
   ('sep drop pop', 'sourcer/expressions/sep.py', "                    with out.IF(staging):\n                        out += staging.pop()\n", "                    pass\n"),
   ('sep require_separator empty', 'sourcer/expressions/sep.py', "Code(f'not {staging} or {saw_separator}')", "Code(f'{saw_separator}')"),
